@@ -424,4 +424,28 @@ theorem C16_indexed_access_inherited (fuel : Nat) (st st' : St) (n b : String) (
     simp only [resolveIndexed, h1, h2, enterRes_ok _ _ hg, hsel, List.foldl, hp]
     cases k <;> simp_all
 
+/-- Indexed access into an INTERSECTION goes into the type literal made of its resolved members (fix 6c2037f; before, the
+    access was unresolvable: an error as a props type, a silent `type: []` as the type of a prop). -/
+theorem C16_indexed_access_into_intersection (fuel : Nat) (st : St) (as : List String) (ks : List Node) (index : Node)
+    (hg : st.typeGaveUp = false) :
+    resolveIndexed (fuel + 1) st (.mk .tsIntersection as ks) index
+      = resolveIndexed fuel (resolveElements fuel st (.mk .tsIntersection as ks)).2
+          (.mk .tsTypeLit [] [nList (resolveElements fuel st (.mk .tsIntersection as ks)).1]) index := by
+  simp [resolveIndexed, enterRes_ok _ _ hg]
+
+/-- … through parentheses … -/
+theorem C16_indexed_access_paren (fuel : Nat) (st : St) (as : List String) (t index : Node) (hg : st.typeGaveUp = false) :
+    resolveIndexed (fuel + 1) st (.mk .tsParen as [t]) index = resolveIndexed fuel st t index := by
+  simp [resolveIndexed, enterRes_ok _ _ hg]
+
+/-- … and into `Partial<T>` / `Required<T>` / `Pick<T, K>` / `Omit<T, K>` (global names that are not shadowed by a declaration). -/
+theorem C16_indexed_access_into_utility (fuel : Nat) (st : St) (n : String) (ir as : List String) (iks : List Node) (tp index : Node)
+    (hn : n = "Partial" ∨ n = "Required" ∨ n = "Pick" ∨ n = "Omit")
+    (h1 : lookupReg st.typeAliases (n, "u") = none) (h2 : lookupReg st.interfaces (n, "u") = none)
+    (hg : st.typeGaveUp = false) :
+    resolveIndexed (fuel + 1) st (.mk .tsTypeRef as [.mk .ident (n :: "u" :: ir) iks, tp]) index
+      = resolveIndexed fuel (resolveElements fuel st (.mk .tsTypeRef as [.mk .ident (n :: "u" :: ir) iks, tp])).2
+          (.mk .tsTypeLit [] [nList (resolveElements fuel st (.mk .tsTypeRef as [.mk .ident (n :: "u" :: ir) iks, tp])).1]) index := by
+  rcases hn with rfl | rfl | rfl | rfl <;> simp [resolveIndexed, enterRes_ok _ _ hg, h1, h2]
+
 end VueJsx
